@@ -223,3 +223,15 @@ PROPS.update({
             "assumptions": ["cross-table ordering (prefix table swapped before router-key table) is not demanded: the statement speaks of 'the table'",
                             "cache A's data changes only through reloads in these plans"]},
 })
+
+
+# C09 / C10 "histories driven by cache responses": the callback mirrors are also audited in whole-system runs (after every
+# synchronisation, stop and reload), including the aligned-pair plans in which two sockets apply at the same instant
+PROPS["C09"]["suites"].append(_world("C03", name="world-C09", runs_quick=500, time_quick=12, runs_thorough=40000, time_thorough=250))
+PROPS["C09"]["suites"].append(_world("C03", name="world-C09-pair", opts={"focus": "C03", "pair": 1}, runs_quick=300, time_quick=8, runs_thorough=20000, time_thorough=150))
+PROPS["C10"]["suites"].append(_world("C03", name="world-C10", runs_quick=500, time_quick=12, runs_thorough=40000, time_thorough=250))
+PROPS["C10"]["suites"].append(_world("C03", name="world-C10-pair", opts={"focus": "C03", "pair": 1}, runs_quick=300, time_quick=8, runs_thorough=20000, time_thorough=150))
+for _p, _t in (("C09", "prefix"), ("C10", "router-key")):
+    PROPS[_p]["rule"] += (" World suites: the same callback log is kept in whole-system runs (real FSM threads against simulated caches, C03 plans incl. "
+                          "the aligned two-socket plans) and compared with the enumerated %s table after every synchronisation, failed or not, after reloads, "
+                          "expiry purges and stops." % _t)
